@@ -9,11 +9,13 @@ files = re.findall(r'^\+\+\+ b/(.*)$', patch, re.M)
 caught = {}
 for f in sorted(glob.glob(f'{d}/check_*_*.txt')):
     m = re.match(r'check_(C\d+)_(\w+)\.txt', os.path.basename(f))
-    txt = open(f).read()
+    full = open(f).read()
+    txt = '\n'.join(l for l in full.splitlines() if l.startswith('VIOLATION'))
+    unb = sorted(set(re.findall(r'^UNBOUND obligation=(\S+)', full, re.M)))
     obs = sorted(set(re.findall(r'obligation=(\S+)', txt)))
     keys = sorted(set(re.findall(r'key=(\S+)', txt)))
-    ex = re.findall(r'check exit=(\d+)', txt)
-    caught[f'{m.group(1)} {m.group(2)}'] = {'exit': int(ex[-1]) if ex else None, 'violation_lines': txt.count('VIOLATION property='), 'obligations': obs[:12], 'keys': keys[:12]}
+    ex = re.findall(r'check exit=(\d+)', full)
+    caught[f'{m.group(1)} {m.group(2)}'] = {'exit': int(ex[-1]) if ex else None, 'violation_lines': txt.count('VIOLATION property='), 'obligations': obs[:12], 'keys': keys[:12], 'unbound_generators': unb}
 def tail(n):
     p = f'{d}/{n}'
     return open(p).read().strip().splitlines()[-1] if os.path.exists(p) else None
